@@ -1,18 +1,22 @@
 (* C18 — readers fail only in documented ways: theorems about the guard models (Model/ReaderGuards.v) judged by
-   Spec/RobustSpec.v.  Proofs: Proofs/C18/*.v.  Refutations of the unconditional statements: Findings/C18.v.
+   Spec/RobustSpec.v.  Proofs: Proofs/C18/*.v.  Refutations of the unconditional statements that remain false: Findings/C18.v.
 
-   Scope: these theorems establish totality OF THE TRANSCRIBED GUARDS ONLY.  The cue-text parsers, SccLine.process and
-   stl tf.to_model are oracles (their observed results are fed to the models by the correspondence check); stack depth,
-   memory, and termination of expat / html.parser are not modelled; that the transcription marks every Python failure
-   point is enforced by the transcription rule and audited by the outcome-class correspondence, not proved.
+   Scope: these theorems establish totality OF THE TRANSCRIBED GUARDS ONLY.  SccLine.process, stl tf.to_model, html.parser
+   (which turns SRT cue text into the callback sequence) and the WebVTT tokenizer are oracles (their observed results are fed to
+   the models by the correspondence check); stack depth, memory, and termination of expat / html.parser are not modelled; that
+   the transcription marks every Python failure point is enforced by the transcription rule and audited by the outcome-class
+   correspondence, not proved.
 
-   Full statement (false today, see Findings/C18.v):
-     forall reader input, reader_ok (obs_of_outcome (reader_guard input)) = true
-   What holds: unconditionally for the SRT and SCC guards; for WebVTT and STL outside the executable triggers below
-     (one for WebVTT, three for STL; the empty-file, cue-without-payload, bad-TCP and bad-MNR triggers went with
-     repository commits 7ed55ac, 05a353c, 9e84fe8, 41b1329). *)
+   Full statement, one per reader guard:
+     forall input oracle, (no answer of the oracle is an internal error) -> reader_ok (obs_of_outcome (guard oracle input)) = true
+   It now holds for all four line-level guards (C18_srt_total, C18_vtt_total, C18_scc_total, C18_stl_total) and, with the oracle
+   of the SRT reader replaced by the transcribed cue-text cursor, for the SRT reader as a whole modulo html.parser
+   (C18_srt_composed_total).  The one executable trigger left is in the WebVTT cue-text cursor: a <ruby> start tag
+   (finding vtt-ruby-structure).  The triggers of vtt-empty-file, vtt-cue-without-payload, stl-bad-tcp, stl-bad-mnr,
+   srt-stray-end-tag, vtt-rt-outside-ruby, stl-zero-block-count, stl-cumulative-block-first, vtt-stray-end-tag,
+   vtt-percentage-overflow, srt-font-color-without-value and stl-zero-row-count went with the repairs of the code. *)
 From TT Require Import Base.Prelude Model.Outcome Model.ReaderGuards Spec.RobustSpec.
-From TT Require Import Proofs.C18.SpecLink Proofs.C18.Srt Proofs.C18.Vtt Proofs.C18.Scc Proofs.C18.Stl.
+From TT Require Import Proofs.C18.SpecLink Proofs.C18.Srt Proofs.C18.Vtt Proofs.C18.Scc Proofs.C18.Stl Proofs.C18.Statements.
 
 (* ---- 1. SRT --------------------------------------------------------------------------------------------------- *)
 (* every internal error of the SRT reader guard is one the cue-text parser raised: the line machine itself (which
@@ -25,7 +29,7 @@ Print Assumptions C18_srt_internal_origin.
 Theorem C18_srt_total : forall oracle content,
   (forall r, In r oracle -> sub_is_internal r = false) ->
   reader_ok (obs_of_outcome (srt_run oracle content)) = true.
-Proof. intros. apply not_internal_ok. apply srt_total. assumption. Qed.
+Proof. exact srt_total_ok. Qed.
 Print Assumptions C18_srt_total.
 
 (* the same over every sequence of line classifications, i.e. independently of the regular expressions *)
@@ -34,42 +38,76 @@ Theorem C18_srt_total_any_classification : forall oracle items k,
 Proof. exact srt_views_internal. Qed.
 Print Assumptions C18_srt_total_any_classification.
 
-(* _TextParser on every callback sequence, unmatched and mismatched end tags included (the trigger srt-stray-end-tag went with
-   repository commit 818e997): no internal error unless a color attribute has no value (finding srt-font-color-without-value) *)
-Theorem C18_srt_cursor_partial : forall attached events,
-  srt_font_novalue events = false ->
+(* _TextParser on EVERY callback sequence — unmatched, mismatched and surplus end tags (repository commit 818e997), <font> with
+   a color attribute that is absent, valueless (lab commit 02aa1c0), rejected or accepted: no internal error *)
+Theorem C18_srt_cursor_total : forall attached events,
   reader_ok (obs_of_outcome (srt_cursor_run attached events)) = true.
-Proof. intros. apply not_internal_ok. apply srt_cursor_partial; assumption. Qed.
-Print Assumptions C18_srt_cursor_partial.
+Proof. exact srt_cursor_total_ok. Qed.
+Print Assumptions C18_srt_cursor_total.
+
+(* ... because the cursor never leaves the paragraph: after any callbacks that do not end the parse it is the paragraph or a
+   span below it, as deep as there are open tags *)
+Theorem C18_srt_cursor_below_paragraph : forall attached events c,
+  srt_cursor_state attached {| sc_parent := CP; sc_open := [] |} events = Some c ->
+  sc_parent c = match length (sc_open c) with O => CP | S d => CSpan d end.
+Proof. exact srt_cursor_below_paragraph. Qed.
+Print Assumptions C18_srt_cursor_below_paragraph.
+
+(* line machine and cursor together: whatever the text and whatever callback sequences html.parser produces for the cues, the SRT
+   reader guard does not end with an internal error.  Remaining oracle: html.parser itself (finding srt-markup-declaration is an
+   AssertionError raised inside it) and the classification of a color value by utils.parse_color *)
+Theorem C18_srt_composed_total : forall cues content,
+  reader_ok (obs_of_outcome (srt_run (srt_cue_oracle cues) content)) = true.
+Proof. exact srt_composed_total_ok. Qed.
+Print Assumptions C18_srt_composed_total.
 
 (* ---- 2. WebVTT ------------------------------------------------------------------------------------------------ *)
-(* on every text, the empty one included; the only trigger left is a percentage setting that overflows a float
-   (vtt-percentage-overflow) *)
-Theorem C18_vtt_partial : forall oracle content,
-  vtt_any_overflow (map vtt_classify (readlines content)) = false ->
+(* on every text, the empty one included, with any cue settings (lab commit cb365b8 removed the last trigger, a percentage
+   that overflows a float) *)
+Theorem C18_vtt_internal_origin : forall oracle content k,
+  vtt_run oracle content = Internal k -> In (SubInternal k) oracle.
+Proof. exact vtt_run_internal. Qed.
+Print Assumptions C18_vtt_internal_origin.
+
+Theorem C18_vtt_total : forall oracle content,
   (forall r, In r oracle -> sub_is_internal r = false) ->
   reader_ok (obs_of_outcome (vtt_run oracle content)) = true.
-Proof. intros. apply not_internal_ok. apply vtt_partial; assumption. Qed.
-Print Assumptions C18_vtt_partial.
+Proof. exact vtt_total_ok. Qed.
+Print Assumptions C18_vtt_total.
 
-Theorem C18_vtt_internal_origin_partial : forall oracle items k,
-  vtt_any_overflow items = false ->
+Theorem C18_vtt_total_any_classification : forall oracle items k,
   vtt_views oracle items = Internal k -> In (SubInternal k) oracle.
-Proof. exact vtt_views_partial. Qed.
-Print Assumptions C18_vtt_internal_origin_partial.
+Proof. exact vtt_views_internal. Qed.
+Print Assumptions C18_vtt_total_any_classification.
 
-(* _TextCueParser without a <ruby> tag (<rt> alone is an ordinary tag since commit 15db449, timestamp tags open nothing since
-   commit 8eaaab8): no internal error unless an end tag closes nothing (vtt-stray-end-tag); with <ruby> the unconditional
-   statement is false (vtt-ruby-structure) and nothing is proved *)
+(* _TextCueParser on every token sequence without a <ruby> start tag — unmatched, mismatched and surplus end tags (lab commit
+   654d3f5), <rt> anywhere (commit 15db449), timestamp tags (commit 8eaaab8): no internal error.  With <ruby> the unconditional
+   statement is false (finding vtt-ruby-structure, Findings/C18.v) *)
 Theorem C18_vtt_cursor_partial : forall attached events,
-  vtt_stray_end events = false -> vtt_has_ruby events = false ->
+  vtt_has_ruby events = false ->
   reader_ok (obs_of_outcome (vtt_cursor_run attached events)) = true.
-Proof. intros. apply not_internal_ok. apply vtt_cursor_partial; assumption. Qed.
+Proof. exact vtt_cursor_partial_ok. Qed.
 Print Assumptions C18_vtt_cursor_partial.
+
+(* for EVERY token sequence, ruby included: while the parse goes on the cursor is the paragraph or below it — never None, the
+   div or the body (what finding vtt-stray-end-tag was about) *)
+Theorem C18_vtt_cursor_never_above_paragraph : forall (attached : bool) events c,
+  let tail : list vkind := if attached then [KDiv; KBody] else [] in
+  vtt_cursor_state {| c_path := KP :: tail; c_ruby := None; c_open := [] |} events = Some c ->
+  exists pre, c_path c = pre ++ KP :: tail.
+Proof. exact vtt_cursor_never_above_p. Qed.
+Print Assumptions C18_vtt_cursor_never_above_paragraph.
+
+(* line machine and cursor together, for files whose cues have no <ruby> tag; remaining oracle: the tokenizer *)
+Theorem C18_vtt_composed_partial : forall cues content,
+  (forall c, In c cues -> vtt_has_ruby (snd c) = false) ->
+  reader_ok (obs_of_outcome (vtt_run (vtt_cue_oracle cues) content)) = true.
+Proof. exact vtt_composed_partial_ok. Qed.
+Print Assumptions C18_vtt_composed_partial.
 
 (* ---- 3. SCC --------------------------------------------------------------------------------------------------- *)
 (* SccLine.from_str / SccWord.from_str on every line of every text: None, a line, or ValueError — never IndexError,
-   although SccWord.from_str alone can raise it (Findings/C18.v C18_scc_word_refuted) *)
+   although SccWord.from_str alone can raise it (Findings/C18.v C18_scc_word_refuted).  Remaining oracle: SccLine.process *)
 Theorem C18_scc_internal_origin : forall oracle content k,
   scc_run oracle content = Internal k -> In (SubInternal k) oracle.
 Proof. exact scc_run_internal. Qed.
@@ -78,25 +116,29 @@ Print Assumptions C18_scc_internal_origin.
 Theorem C18_scc_total : forall oracle content,
   (forall r, In r oracle -> sub_is_internal r = false) ->
   reader_ok (obs_of_outcome (scc_run oracle content)) = true.
-Proof. intros. apply not_internal_ok. apply scc_total. assumption. Qed.
+Proof. exact scc_total_ok. Qed.
 Print Assumptions C18_scc_total.
 
 (* ---- 4. EBU STL ----------------------------------------------------------------------------------------------- *)
 (* over byte lists of any length and every reader configuration: struct.error for wrong sizes, otherwise no internal error
-   unless the executable trigger of stl-zero-row-count fires or tf.to_model (oracle) raises one (the triggers
-   stl-zero-block-count and stl-cumulative-block-first went with repository commits c08d0ef and 8f4f9e5) *)
-Theorem C18_stl_partial : forall cfg oracle file,
-  trig_zero_rows cfg (firstn 1024 file) = false ->
-  (forall r, In r oracle -> sub_is_internal r = false) ->
-  reader_ok (obs_of_outcome (stl_run cfg oracle file)) = true.
-Proof. intros. apply not_internal_ok. apply stl_partial; assumption. Qed.
-Print Assumptions C18_stl_partial.
-
-Theorem C18_stl_internal_origin_partial : forall cfg oracle file k,
-  trig_zero_rows cfg (firstn 1024 file) = false ->
+   unless tf.to_model (the remaining oracle) raises one.  The three triggers went with repository commits c08d0ef, 8f4f9e5 and
+   lab commit 7e042d3 *)
+Theorem C18_stl_internal_origin : forall cfg oracle file k,
   stl_run cfg oracle file = Internal k -> In (SubInternal k) oracle.
 Proof. exact stl_run_internal. Qed.
-Print Assumptions C18_stl_internal_origin_partial.
+Print Assumptions C18_stl_internal_origin.
+
+Theorem C18_stl_total : forall cfg oracle file,
+  (forall r, In r oracle -> sub_is_internal r = false) ->
+  reader_ok (obs_of_outcome (stl_run cfg oracle file)) = true.
+Proof. exact stl_total_ok. Qed.
+Print Assumptions C18_stl_total.
+
+(* a file shorter than the GSI block is a struct.error under every configuration *)
+Theorem C18_stl_short_file : forall cfg oracle file,
+  (length file < 1024)%nat -> stl_run cfg oracle file = FormatError StructErr.
+Proof. exact stl_short_header. Qed.
+Print Assumptions C18_stl_short_file.
 
 (* ---- S and the guard outcomes --------------------------------------------------------------------------------- *)
 Theorem C18_spec_iff_not_internal : forall o, reader_ok (obs_of_outcome o) = negb (is_internal o).
@@ -105,10 +147,9 @@ Print Assumptions C18_spec_iff_not_internal.
 
 (* ---- the hypotheses are satisfiable (and the conclusions are about real work) -------------------------------------- *)
 (* "WEBVTT\n\nNOTE x\n\n1\n00:01.000 --> 00:02.000 size:50%\nhello\n\n" *)
-Example C18_vtt_partial_applies :
+Example C18_vtt_total_applies :
   let content := [87;69;66;86;84;84;10;10;78;79;84;69;32;120;10;10;49;10;48;48;58;48;49;46;48;48;48;32;45;45;62;32;48;48;58;48;50;46;48;48;48;32;115;105;122;101;58;53;48;37;10;104;101;108;108;111;10;10] in
-  vtt_any_overflow (map vtt_classify (readlines content)) = false /\ vtt_run [] content = OkDoc /\ vtt_calls [] content = [true]
-  /\ vtt_run [] [] = OkDoc.
+  vtt_run [] content = OkDoc /\ vtt_calls [] content = [true] /\ vtt_run [] [] = OkDoc.
 Proof. repeat split; vm_compute; reflexivity. Qed.
 
 (* "1\n00:00:01,000 --> 00:00:02,000\nhello\n\n2\n" : one cue parsed, then the end of input in state TC; a file whose counter
@@ -125,11 +166,37 @@ Example C18_scc_runs :
   /\ scc_run [] [48;48;58;48;48;58;48;48;58;48;48;9;57;52;122;122;10] = FormatError ValueErr.
 Proof. split; vm_compute; reflexivity. Qed.
 
-(* a one-subtitle STL file under the default configuration: no trigger fires; a file cut inside a TTI block is a struct.error *)
-Example C18_stl_partial_applies :
+(* a one-subtitle STL file under the default configuration; a file cut inside a TTI block is a struct.error; MNR = "00" under
+   max_row_count = "MNR" is read with the default row count *)
+Example C18_stl_total_applies :
   let gsi := repeat 32 3 ++ [83;84;76;50;53;46;48;49] ++ repeat 32 1013 in
   let block := [0; 1; 0; 255; 0; 0; 0; 5; 0; 0; 0; 6; 0; 20; 2; 0] ++ repeat 143 112 in
   let cfg := {| cfg_start := StartNone; cfg_rows := RowsNone |} in
-  trig_zero_rows cfg (firstn 1024 (gsi ++ block)) = false
-  /\ stl_run cfg [] (gsi ++ block) = OkDoc /\ stl_run cfg [] (gsi ++ firstn 100 block) = FormatError StructErr.
+  stl_run cfg [] (gsi ++ block) = OkDoc /\ stl_run cfg [] (gsi ++ firstn 100 block) = FormatError StructErr
+  /\ stl_run {| cfg_start := StartNone; cfg_rows := RowsMNR |} [] (firstn 253 gsi ++ [48; 48] ++ skipn 255 gsi ++ block) = OkDoc.
 Proof. repeat split; vm_compute; reflexivity. Qed.
+
+
+(* the cursor theorems are about real work: "<b><i>x</b>y</i></i>" (mismatched, then surplus end tags) and "<font color>z" are parsed
+   to the end; a WebVTT cue "a</b><c>b<rt>c</rt></c></v>d" too; the composed oracle of a cue with a bad colour is a ValueError *)
+Example C18_cursor_theorems_apply :
+  srt_cursor_run true [EvStart 0 None; EvStart 1 None; EvData; EvEnd 0; EvData; EvEnd 1; EvEnd 1; EvStart 2 (Some ColorNoValue); EvData] = OkDoc
+  /\ vtt_has_ruby [TData 0; TEnd 0; TStartSpan 1; TData 0; TStartRt 2; TData 0; TEnd 2; TEnd 1; TEnd 3; TData 0] = false
+  /\ vtt_cursor_run true [TData 0; TEnd 0; TStartSpan 1; TData 0; TStartRt 2; TData 0; TEnd 2; TEnd 1; TEnd 3; TData 0] = OkDoc
+  /\ srt_cue_oracle [(true, [EvStart 0 (Some ColorBad)])] = [SubFormat ValueErr].
+Proof. repeat split; reflexivity. Qed.
+
+(* the hypothesis of C18_vtt_composed_partial is satisfiable, and the composed guard does real work: the cue of
+   "WEBVTT\n\n00:01.000 --> 00:02.000\na</b>c\n" handed to the cursor as [text; </b>; text] *)
+Example C18_vtt_composed_applies :
+  let cues := [(true, [TData 0; TEnd 0; TData 0])] in
+  let content := [87;69;66;86;84;84;10;10;48;48;58;48;49;46;48;48;48;32;45;45;62;32;48;48;58;48;50;46;48;48;48;10;97;60;47;98;62;99;10] in
+  (forall c, In c cues -> vtt_has_ruby (snd c) = false) /\ vtt_cue_oracle cues = [SubOk]
+  /\ vtt_run (vtt_cue_oracle cues) content = OkDoc /\ vtt_calls (vtt_cue_oracle cues) content = [true].
+Proof. repeat split; try (vm_compute; reflexivity). intros c [E|[]]; subst; reflexivity. Qed.
+
+(* ... and the premise of C18_vtt_cursor_never_above_paragraph too: after "<ruby>a<rt>b</ruby></i></ruby>" the cursor is the paragraph *)
+Example C18_vtt_never_above_applies :
+  exists c, vtt_cursor_state {| c_path := [KP; KDiv; KBody]; c_ruby := None; c_open := [] |}
+              [TStartRuby 0; TData 0; TStartRt 1; TData 0; TEnd 0; TEnd 2; TEnd 0] = Some c /\ c_path c = [KP; KDiv; KBody].
+Proof. eexists. split; reflexivity. Qed.
